@@ -825,6 +825,12 @@ class HistogramBase(abc.ABC):
             "frequencies": a_dict.get("frequencies"),
             "errors2": a_dict.get("errors2"),
         }
+        shape = tuple(binning.bin_count for binning in kwargs["binnings"])
+        if 0 in shape:
+            # Nested lists cannot express the shape of an array without elements
+            for key in ("frequencies", "errors2"):
+                if kwargs[key] is not None:
+                    kwargs[key] = np.reshape(kwargs[key], shape)
         if "missed" in a_dict:
             kwargs["missed"] = a_dict["missed"]
         if "missed_keep" in a_dict:
